@@ -309,8 +309,13 @@ class TypeRender:
                 'float': '%d.0' % (10 + i), 'expr': 'probes::pexpr(%d)' % (10 + i)}[kind]
 
     def method_path(self, t):
-        return {'PartialEq': 'probes::m_eq', 'Ord': 'probes::m_cmp', 'PartialOrd': 'probes::m_pcmp', 'Hash': 'probes::m_hash',
-                'Clone': 'probes::m_clone', 'Debug': 'probes::m_fmt', 'Into': 'probes::m_into'}[t]
+        p = {'PartialEq': 'probes::m_eq', 'Ord': 'probes::m_cmp', 'PartialOrd': 'probes::m_pcmp', 'Hash': 'probes::m_hash',
+             'Clone': 'probes::m_clone', 'Debug': 'probes::m_fmt', 'Into': 'probes::m_into'}[t]
+        # a third of the configurations name the method with explicit (inferred) generic arguments: a path is a path
+        # in every spelling
+        if hpick(3, self.idx, 'turbofish') == 0:
+            p += {'Hash': '::<_, _>', 'Into': '::<_, _>'}.get(t, '::<_>')
+        return p
 
     def field_metas(self, v, i, f):
         metas = []
@@ -473,6 +478,8 @@ class TypeRender:
 
     def disc_text(self, v, n):
         """an explicit discriminant, written as a decimal, hexadecimal or separated literal (the same integer)"""
+        if n >= 2000000000 - 1000:
+            n = 18446744073709551615 - (2000000000 - n)      # the model's BigDisc (2e9) stands for u64::MAX
         if self.canonical:
             return str(n)
         sign, m = ('-' if n < 0 else ''), abs(n)
